@@ -385,7 +385,11 @@ func ruleMergeShape(c *Ctx) {
 						return false
 					}
 					seen[bb] = true
-					for _, s := range bb.Succs {
+					for si, s := range bb.Succs {
+						if b.alreadyStoredEdge(bb, si, ml.key, ml.val, mf.merge) {
+							// merge handed back the very value that is stored under the key
+							continue
+						}
 						if walk(s) {
 							return true
 						}
@@ -1489,8 +1493,8 @@ func ruleCmpShape(c *Ctx) {
 			for _, cs := range callsTo(co, func(cc *ssa.CallCommon) bool { return cc.StaticCallee() == gd }) {
 				key := "createObjectMergePatch: the diff goes to the encoder as getDiff produced it"
 				var diff ssa.Value
-				for _, ex := range extractOf(cs.Value(), 0) {
-					diff = ex
+				for _, rv := range resultsOf(cs.Value(), 0) {
+					diff = rv
 				}
 				bad := ""
 				if diff == nil {
@@ -1569,7 +1573,7 @@ func ruleCmpShape(c *Ctx) {
 				bad = "getDiff does not range over both of its parameters"
 			} else {
 				for _, r := range liveReturns(gd) {
-					if !isNilConst(retVal(r, 1)) {
+					if ei := errResultIndex(gd); ei >= 0 && !isNilConst(retVal(r, ei)) {
 						continue
 					}
 					for pi, h := range headers {
@@ -1775,8 +1779,9 @@ func (b *Body) diffStoreCensus(l *Ledger, gd *ssa.Function) {
 			val = mi.X
 		}
 		// (S2) the recursive diff
-		if ex, ok := val.(*ssa.Extract); ok && ex.Index == 0 {
-			if call, ok := ex.Tuple.(*ssa.Call); ok && call.Call.StaticCallee() == gd {
+		if call, ri, ok := asResult(val); ok && ri == 0 {
+			ex := val
+			if call.Call.StaticCallee() == gd {
 				bad := ""
 				if !inObjArm || call.Call.Args[0] != objA {
 					bad = "the recursion is not applied to a's value asserted to an object"
@@ -1790,7 +1795,7 @@ func (b *Body) diffStoreCensus(l *Ledger, gd *ssa.Function) {
 					if !ok {
 						continue
 					}
-					if la, isLen := lenArg(big); isLen && la == ssa.Value(ex) && f.True {
+					if la, isLen := lenArg(big); isLen && la == ex && f.True {
 						if z, isZ := intConst(small); isZ && ((strict && z == 0) || (!strict && z == 1)) {
 							nonEmpty = true
 						}
@@ -1799,8 +1804,10 @@ func (b *Body) diffStoreCensus(l *Ledger, gd *ssa.Function) {
 				if !nonEmpty {
 					bad = "the recursive diff is stored without a len(diff) > 0 test: unchanged nested objects appear in the patch as {}"
 				}
-				if ok, _ := b.successDominates(call, mu); !ok {
-					bad = "the recursive diff is stored without its error having been tested"
+				if errResultIndex(gd) >= 0 {
+					if ok, _ := b.successDominates(call, mu); !ok {
+						bad = "the recursive diff is stored without its error having been tested"
+					}
 				}
 				if bad != "" {
 					l.add("R-CMPSHAPE", b.Name, key, b.posOf(mu), Violated, bad, true)
@@ -2477,4 +2484,35 @@ func (b *Body) mergeResultProvenance(l *Ledger, dm *ssa.Function, mf *mergeFns, 
 		bad = "no encoder call on an object container found"
 	}
 	add(key, b.posOf(mc), bad == "", "every object that reaches the encoder is the document after mergeDocs(document, patch, flag), the patch, or prune(patch) — the latter two only off the both-are-objects edge", bad)
+}
+
+// alreadyStoredEdge: successor si of bb is taken when merge(cur, member, …) came back equal to
+// cur, the value looked up under key in the target: what a store would put there is there.
+func (b *Body) alreadyStoredEdge(bb *ssa.BasicBlock, si int, key, member ssa.Value, merge *ssa.Function) bool {
+	iff, ok := lastInstr(bb).(*ssa.If)
+	if !ok || merge == nil {
+		return false
+	}
+	bo, ok := iff.Cond.(*ssa.BinOp)
+	if !ok || (bo.Op != token.EQL && bo.Op != token.NEQ) {
+		return false
+	}
+	if (si == 0) != (bo.Op == token.EQL) {
+		return false
+	}
+	isCur := func(v ssa.Value) bool {
+		switch cv := v.(type) {
+		case *ssa.Extract:
+			lk, ok := cv.Tuple.(*ssa.Lookup)
+			return ok && cv.Index == 0 && lk.Index == key
+		case *ssa.Lookup:
+			return cv.Index == key
+		}
+		return false
+	}
+	isMerged := func(v, cur ssa.Value) bool {
+		call, ok := v.(*ssa.Call)
+		return ok && call.Call.StaticCallee() == merge && len(call.Call.Args) >= 2 && call.Call.Args[0] == cur && call.Call.Args[1] == member
+	}
+	return (isCur(bo.X) && isMerged(bo.Y, bo.X)) || (isCur(bo.Y) && isMerged(bo.X, bo.Y))
 }
